@@ -146,7 +146,13 @@ fn get_vlen_bytes_and_offsets(
     let index_len = u64::from_le_bytes(bytes[0..size_of::<u64>()].try_into().unwrap());
     let index_len = usize::try_from(index_len)
         .map_err(|_| CodecError::Other("index length exceeds usize::MAX".to_string()))?;
-    let data_start = size_of::<u64>() + index_len;
+    // An index length that reaches past the end of the bytes (corrupted or truncated data) is an error, not a panic
+    let data_start = size_of::<u64>()
+        .checked_add(index_len)
+        .filter(|data_start| *data_start <= bytes.len())
+        .ok_or_else(|| {
+            InvalidBytesLengthError::new(bytes.len(), size_of::<u64>().saturating_add(index_len))
+        })?;
 
     // Decode the index
     let index = &bytes[size_of::<u64>()..data_start];
